@@ -154,7 +154,7 @@ func (hash *SexpHash) jsonHashHelper() string {
 	for _, key := range hash.KeyOrder {
 		keyst := jsonKeyText(key)
 		ko = append(ko, keyst)
-		val, err := hash.HashGet(nil, key)
+		val, err := hash.storedValue(key)
 		if err == nil {
 			str += jsonQuote(keyst) + `:`
 			str += string(SexpToJson(val)) + `, `
